@@ -536,7 +536,8 @@ func (cs *chargingStation) SendRequestAsync(request ocpp.Request, callback func(
 	return err
 }
 
-func (cs *chargingStation) asyncCallbackHandler() {
+// stopC is the stop signal of this session: Start replaces the field for the next one
+func (cs *chargingStation) asyncCallbackHandler(stopC chan struct{}) {
 	for {
 		select {
 		case confirmation := <-cs.responseHandler:
@@ -553,7 +554,7 @@ func (cs *chargingStation) asyncCallbackHandler() {
 			} else {
 				cs.error(fmt.Errorf("no callback available for incoming error %w", protoError))
 			}
-		case <-cs.stopC:
+		case <-stopC:
 			// Handler stopped, cleanup callbacks.
 			// No callback invocation, since the user manually stopped the client.
 			cs.clearCallbacks(false)
@@ -628,7 +629,7 @@ func (cs *chargingStation) Start(csmsUrl string) error {
 	err := cs.client.Start(csmsUrl)
 	// Async response handler receives incoming responses/errors and triggers callbacks
 	if err == nil {
-		go cs.asyncCallbackHandler()
+		go cs.asyncCallbackHandler(cs.stopC)
 	}
 	return err
 }
@@ -639,7 +640,7 @@ func (cs *chargingStation) StartWithRetries(csmsUrl string) {
 	cs.stopC = make(chan struct{}, 1)
 	cs.client.StartWithRetries(csmsUrl)
 	// Async response handler receives incoming responses/errors and triggers callbacks
-	go cs.asyncCallbackHandler()
+	go cs.asyncCallbackHandler(cs.stopC)
 }
 
 func (cs *chargingStation) Stop() {
